@@ -4,6 +4,7 @@ def _fmm_objects():
     objs = [("h_fmm_main.cpp", [], "main")]
     for d, p in [(1, 0), (2, 0), (3, 0), (4, 0), (1, 1), (2, 1), (3, 1)]:
         objs.append(("h_fmm_tu.cpp", ["VH_DIM=%d" % d, "VH_PER=%d" % p], "d%d_%d" % (d, p)))
+    objs.append(("h_fmm_tu.cpp", ["VH_DIM=3", "VH_HILBERT=1"], "hilbert"))
     return objs
 
 def _tree_objects():
@@ -15,7 +16,14 @@ def _sched_objects(tsan):
         objs.append(("h_sched_tu.cpp", ["VH_DIM=%d" % d, "VH_PER=%d" % p, "VH_TSAN=%d" % tsan], "d%d_%d" % (d, p)))
     return objs
 
+def _index_objects():
+    objs = [("h_index_main.cpp", [], "main")]
+    for k, d, p in [(0,1,0),(0,2,0),(0,3,0),(0,4,0),(0,1,1),(0,2,1),(0,3,1),(0,4,1),(1,3,0)]:
+        objs.append(("h_index_tu.cpp", ["VH_KIND=%d" % k, "VH_DIM=%d" % d, "VH_PER=%d" % p], "k%d_%d_%d" % (k, d, p)))
+    return objs
+
 BINARIES = {
+    "h_index": {"flavour": "asan", "objects": _index_objects(), "about": "public index API of Morton (Dim 1..4, periodic or not) and Hilbert (Dim 3) orderings against the coordinate model"},
     "h_sched": {"flavour": "asan", "objects": _sched_objects(0), "cflags": ["-fopenmp"], "ldflags": ["-lpthread"], "about": "OpenMP executors (plain and target/source) linked against the scheduler shim instead of libgomp; hostile schedules; O-dag, O-seq, P-rec; ASan+UBSan"},
     "h_sched_tsan": {"flavour": "tsan", "objects": _sched_objects(1), "cflags": ["-fopenmp"], "ldflags": ["-lpthread"], "about": "same engine under ThreadSanitizer with wave policies (mutually unordered tasks released together)"},
     "h_fmm": {"flavour": "asan", "objects": _fmm_objects(), "about": "sequential executors + probe kernels on single trees, Dim 1..4, Morton and periodic Morton"},
@@ -145,6 +153,17 @@ CHECKS = {
         "jobs": [{"bin": "h_fmm", "mode": "c10"}],
         "rule": "case = random tree with periodic Morton ordering (Dim 1..3, heights 2..8, any centre/width incl. per-dimension widths, a third of the cases with particles on the box faces/corners), extra levels -1..5 (Dim 3: -1..3), run with Checked<P-poly> (every case), the counting kernel (every 3rd) or the target/source top tree (every 3rd). non-trivial = any; distinct = (input signature, extra levels).",
         "require_events": ["periodic-runs", "counting-runs", "periodic-tsm-runs", "image-pairs-checked"],
+        "assumptions": [],
+    },
+    "C11": {
+        "level": EXPL,
+        "technique": "runtime monitoring: differential oracle - every public index-API result compared with an independent coordinate model (set equality of lists, decode of every position code), exhaustive over small levels",
+        "claim": "For Morton in Dim 1..4 (periodic or not): on every explored cell, coordinates and indices were in bijection below the level bound, the parent index decoded to the containing cell, the child code was the octant, interaction and neighbour lists equalled the model's sets (wrapped / clipped), per-group builders partitioned them correctly with codes decoding to the true offset, and code encode/decode were inverse over the whole range. For Hilbert (Dim 3) the same clauses are run; the two that fail are recorded as a known finding.",
+        "note": "Exhaustive for every cell of every level up to a bound only (quick: Dim1<=10, Dim2<=6, Dim3<=4, Dim4<=3); random cells up to level min(30, 62/Dim) because the configuration object itself shifts an int by height-1.",
+        "jobs": [{"bin": "h_index", "mode": "c11"}],
+        "rule": "cases = chunks of 2048 cells covering every cell of every level up to the bound, for tree heights level+1 and level+2; 300 random cells (incl. box corners/edges) at large levels; synthetic groups (contiguous, sparse, spanning, gapped) for the per-group builders with both values of the self-inclusion and upper-half filters; whole code ranges; positions on faces. non-trivial = level >= 1 (groups: >= 2 cells and level >= 2); distinct = (ordering, level, chunk) or case id.",
+        "require_events": ["cells-checked", "interaction-entries-checked", "neighbor-entries-checked", "group-interaction-entries-checked", "codes-checked", "positions-checked"],
+        "exhaustive_quick": False,
         "assumptions": [],
     },
 }
